@@ -38,6 +38,9 @@ func runLive(o *Opts) *Summary {
 		if t%3 == 1 {
 			cn.mangle = 0.2
 		}
+		if t%5 == 3 || t%7 == 5 {
+			cn.EnableReentrant(0.35)
+		}
 		cn.EmitInit(map[string]interface{}{"sched": "live-" + sn, "seed": o.Seed*1000 + int64(t), "nc": n + 1})
 		sc := makeSched(w, sn, n, o.Steps)
 		emptyOnly := t%4 == 2
